@@ -147,7 +147,7 @@ class C11(Prop):
             gens.append({"kind": "doc", "tree": {"k": "root", "c": top}, "args": args,
                          "prefix": rnd.choice(["lib", None, "a/b", "x"]), "inclver": rnd.random() < 0.5, "later": rnd.random() < 0.3,
                          "prerender": rnd.random() < 0.5, "twice": rnd.random() < 0.3,
-                         "seq": rnd.choice(["", "", "", "shared_list", "failed_append", "grown_inside"])})
+                         "seq": rnd.choice(["", "", "", "shared_list", "failed_append", "grown_inside", "copied_doc", "dep_head_changed"])})
         leaf = lambda k: {"k": k, "c": []}
         # documents whose dependencies emit no markup at all: the listing must still name them
         for deps in (["d0"], ["d6"], ["d0", "d6"], ["d0", "d1"]):
@@ -195,6 +195,23 @@ class C11(Prop):
                 doc.append(H.tags.div("must not stay", mk_dep("d5", H)), mk_dep("hc2", H), gamma.Bad())
             except TypeError:
                 pass
+        elif how == "copied_doc" and kids:
+            # a copy of the document used next to the original: what one of them gets afterwards is not in the other
+            import copy as _copy
+            doc = H.HTMLDocument(*kids, **kw)
+            other = _copy.copy(doc)
+            other.append(H.tags.div("only in the copy", mk_dep("d5", H)), mk_dep("hc2", H))
+            other.render()
+        elif how == "dep_head_changed" and kids:
+            # a tag that serves as a dependency's head content is changed AFTER the dependency and the document were built:
+            # what is emitted is the dependency as it is when the document is rendered
+            ht = H.tags.title("Draft")
+            hd = H.HTMLDependency("livehead", "1.0", head=ht)
+            kids = kids + [hd]
+            doc = H.HTMLDocument(*kids, **kw)
+            ht.attrs["data-rev"] = "2"
+            ht.children.clear()
+            ht.append("Final")
         elif how == "grown_inside" and kids and isinstance(kids[0], H.Tag) and kids[0].name not in ("html", "head"):
             # the document was rendered, then a tag it holds got more children through that tag's own methods
             first = kids[0]
